@@ -190,6 +190,43 @@ func c01InPlace(key, nonce, pt, ad, want, prefix []byte, roomy bool, off int) er
 	return nil
 }
 
+// c01Record is the record-layer idiom (crypto/tls, QUIC): the header is both the
+// existing dst prefix and the additional data, the payload is encrypted in place:
+// rec = Seal(rec[:k], nonce, rec[k:], rec[:k]) and, in the same buffer,
+// Open(rec[:k], nonce, rec[k:], rec[:k]).  The prefix is only preserved, never
+// written, so this is a legal layout and must give the RFC 8439 value on every path.
+func c01Record(key, nonce, pt, header []byte, roomy bool, off int) error {
+	a := newAEAD(key, len(nonce))
+	want := refaead.Seal(key, nonce, pt, header)
+	k, n := len(header), len(pt)
+	capn := k + n
+	if roomy {
+		capn = k + n + 16 + off%3
+	}
+	rec, chk := placed(off, k+n, capn)
+	copy(rec, header)
+	copy(rec[k:], pt)
+	var sealed []byte
+	if err := catch(func() { sealed = a.Seal(rec[:k], nonce, rec[k:k+n], rec[:k]) }); err != nil {
+		return fmt.Errorf("record idiom Seal(rec[:%d], nonce, rec[%d:%d], rec[:%d]) (AD = the dst prefix, cap(rec)=%d): %v", k, k, k+n, k, capn, err)
+	}
+	if len(sealed) != k+len(want) || !bytes.Equal(sealed[:k], header) || !bytes.Equal(sealed[k:], want) {
+		return fmt.Errorf("record idiom Seal(rec[:%d], nonce, rec[%d:%d], rec[:%d]) differs from header||RFC 8439 value (got %s)", k, k, k+n, k, ev.Hex(sealed))
+	}
+	if err := chk(); err != nil {
+		return fmt.Errorf("record idiom Seal wrote out of bounds: %v", err)
+	}
+	var opened []byte
+	var oerr error
+	if err := catch(func() { opened, oerr = a.Open(sealed[:k], nonce, sealed[k:], sealed[:k]) }); err != nil {
+		return fmt.Errorf("record idiom Open(rec[:%d], nonce, rec[%d:], rec[:%d]): %v", k, k, k, err)
+	}
+	if oerr != nil || len(opened) != k+n || !bytes.Equal(opened[:k], header) || !bytes.Equal(opened[k:], pt) {
+		return fmt.Errorf("record idiom Open(rec[:%d], nonce, rec[%d:], rec[:%d]): err=%v, result %s, want header||plaintext", k, k, k, oerr, ev.Hex(opened))
+	}
+	return nil
+}
+
 // c01Guarded runs Seal and Open with plaintext, additional data, ciphertext
 // and output placed directly against inaccessible pages (at the end of the
 // mapping when atEnd, else at its start): a read or write beyond the slices
@@ -257,7 +294,7 @@ func pat(seed uint64, n int) []byte {
 }
 
 func TestC01(t *testing.T) {
-	c := ev.New("C01", "non-trivial: plaintext longer than one 64-byte block, or additional data non-empty, or dst non-empty; distinct = (path, nonce size, |pt|, |ad|, |dst|, Seal cap class, Open cap class); every case is sealed and opened with separate buffers AND in place (dst = plaintext[:0] / buf[:k] with the input at buf[k:])")
+	c := ev.New("C01", "non-trivial: plaintext longer than one 64-byte block, or additional data non-empty, or dst non-empty; distinct = (path, nonce size, |pt|, |ad|, |dst|, Seal cap class, Open cap class); every case is sealed and opened with separate buffers AND in place (dst = plaintext[:0] / buf[:k] with the input at buf[k:], and the record-layer idiom Seal(rec[:k], nonce, rec[k:], rec[:k]) with AD = the dst prefix)")
 	defer c.Flush(t)
 	c.Oracle("refaead.Seal: RFC 8439 2.8 / draft-irtf-cfrg-xchacha-01 from an independent block function and math/big Poly1305 (KAT-checked)")
 	if err := refaead.SelfTest(); err != nil {
@@ -313,6 +350,7 @@ func TestC01(t *testing.T) {
 			ipPrefix = gen.RandBytes(rt, "inplacePrefixBytes", rapid.IntRange(1, 40).Draw(rt, "inplacePrefixLen"))
 			ipClass = "inplace:dst=buf[:k],pt=buf[k:]"
 		}
+		recHeader := gen.RandBytes(rt, "recordHeader", rapid.SampledFrom([]int{5, 13, 1, 16, 21}).Draw(rt, "recordHeaderLen"))
 		guardAtEnd := rapid.IntRange(0, 3).Draw(rt, "guardAtEnd") > 0
 		ipRoomy := rapid.IntRange(0, 3).Draw(rt, "inplaceRoomy") > 0
 		if !ipRoomy {
@@ -333,6 +371,9 @@ func TestC01(t *testing.T) {
 			}
 			if err == nil {
 				err = c01Guarded(key, nonce, pt, ad, want, guardAtEnd)
+			}
+			if err == nil && n <= 5000 {
+				err = c01Record(key, nonce, pt, recHeader, ipRoomy, srcOff)
 			}
 			restore()
 			if err != nil {
@@ -453,6 +494,9 @@ func TestC01(t *testing.T) {
 				}
 				if err == nil {
 					err = c01Guarded(key, nonce, pt, ad, want, true)
+				}
+				if err == nil {
+					err = c01Record(key, nonce, pt, pat(seed+7, []int{5, 13}[n%2]), n%3 != 0, n%32)
 				}
 				if err == nil && n%3 == 0 {
 					err = c01Guarded(key, nonce, pt, ad, want, false)
